@@ -277,7 +277,6 @@ impl Name {
                 let a = *vp_a; let b = *vp_b;
                 let ghost i = vp_it2.index@;
                 assert(a == l@[i] && b == r@[i]);
-//%before "match F::cmp_u8(a, b)"
                 proof {
                     lemma_label_cmp_skip(fold, l@, r@, i);
                     lemma_canon_cmp_take(fold, xs, ys, k);
